@@ -244,7 +244,7 @@ BShapes    == {<<>>, <<2>>}
 \* for the wrappers the facts are those of the base strategy.
 StratInfo(s) ==
   CASE s = "VariationalStrategy"                       -> [white |-> "chol", xjit |-> 1, kljit |-> "jv", wraps |-> FALSE]
-    [] s = "UnwhitenedVariationalStrategy"             -> [white |-> "none", xjit |-> 0, kljit |-> "jv", wraps |-> FALSE]
+    [] s = "UnwhitenedVariationalStrategy"             -> [white |-> "none", xjit |-> 0, kljit |-> "1e-3/jv", wraps |-> FALSE]
     [] s = "BatchDecoupledVariationalStrategy"         -> [white |-> "chol", xjit |-> 1, kljit |-> "jv", wraps |-> FALSE]
     [] s = "OrthogonallyDecoupledVariationalStrategy"  -> [white |-> "none", xjit |-> 0, kljit |-> "jv", wraps |-> TRUE]
     [] s = "CiqVariationalStrategy"                    -> [white |-> "sym", xjit |-> 2, kljit |-> "jv", wraps |-> FALSE]
